@@ -4,6 +4,7 @@ import ThruVerif.Model.Budget
 import ThruVerif.Gen.Consts
 import ThruVerif.Proofs.ProtoLM
 import ThruVerif.Proofs.FileWait
+import ThruVerif.Proofs.ProtoLMC
 import ThruVerif.Gen.Shapes
 /-!
 # C03 — Every transfer between healthy peers completes
@@ -344,6 +345,75 @@ theorem C03_budget (files req conns : Nat) :
   TV.Budget.budget_bounds files req conns
 
 end TV.C03
+
+namespace TV.ProtoLMC
+
+/-! ## the whole manifest over several connections: `k` files, `n ≥ 1` data streams spread round-robin over `c ≥ 1` connections -/
+
+/-- **C03_manifest_completes_multiconn.** In every reachable state of the multi-connection abstraction that is not final some step
+is enabled, every step strictly decreases `measure`, and `End` is received only after every file was confirmed with nothing left
+to receive - for any number of connections, streams, files and chunks, and any interleaving of the per-connection stream
+visibility with the receiver's accepts. -/
+theorem C03_manifest_completes_multiconn {k n c : Nat} {chunks : Nat → Nat} (hn : 0 < n) (hc : 0 < c) {s : St}
+    (h : Reachable k n c chunks s) :
+    (s.endAllRecv = false → ∃ a s', step s a = some s') ∧
+    (∀ a s', step s a = some s' → measure s' < measure s) ∧
+    (s.endAllRecv = true → ∀ f, f < s.k → s.doneRecv f = true ∧ s.remaining f = 0) := by
+  have hi := reachable_inv hn hc h
+  refine ⟨progress hi, fun a s' hs => step_measure hi hs, ?_⟩
+  intro he f hf
+  have hd := hi.eas (hi.ear he) f hf
+  exact ⟨hd, (hi.done1 f hf (hi.dr f hf hd)).1⟩
+
+def run (s : St) : List Step → Option St
+  | [] => some s
+  | a :: as => match step s a with | some s' => run s' as | none => none
+
+/-- a run can never be longer than the measure of the state it starts from -/
+theorem run_length_le_multiconn {k n c : Nat} {chunks : Nat → Nat} (hn : 0 < n) (hc : 0 < c) {s s' : St} (h : Reachable k n c chunks s)
+    (as : List Step) (hr : run s as = some s') : as.length + measure s' ≤ measure s := by
+  induction as generalizing s with
+  | nil => simp only [run, Option.some.injEq] at hr; subst hr; simp
+  | cons a as ih =>
+    simp only [run] at hr
+    split at hr
+    · rename_i s1 h1
+      have := ih (Reachable.step a h h1) hr
+      have hm := step_measure (reachable_inv hn hc h) h1
+      simp only [List.length_cons]
+      omega
+    · cases hr
+
+/-- a frame is never in flight on a stream the sender does not have, and the receiver never takes more streams from a connection
+than the sender opened on it -/
+theorem C03_multiconn_streams_bounded {k n c : Nat} {chunks : Nat → Nat} (hn : 0 < n) (hc : 0 < c) {s : St}
+    (h : Reachable k n c chunks s) (j : Nat) (hj : j < s.c) : s.accepted j ≤ cnt s.n s.c j := by
+  have := (reachable_inv hn hc h).acc j hj
+  omega
+
+-- non-vacuity: two files (1 and 2 chunks), three data streams over two connections (streams 1 and 3 on connection 1, stream 2
+-- next to the control stream on connection 0); a frame on stream 3 reveals stream 1 too
+example : ((run (init 2 3 2 (fun f => f + 1))
+    [.dispatch 1 3, .dispatch 0 2, .accept 1, .accept 0, .readFrame 2 0, .dispatch 1 1, .sendEnd 0, .sendEnd 1, .recvEnd 0, .recvDone 0,
+     .accept 1, .readFrame 3 1, .readFrame 1 1, .recvEnd 1, .recvDone 1, .sendEndAll, .recvEndAll]).map (·.endAllRecv)) = some true := by
+  decide
+-- a frame on stream 3 (second stream of connection 1) cannot be read after a single accept on that connection
+example : ((run (init 2 3 2 (fun f => f + 1)) [.dispatch 1 3, .accept 1, .readFrame 3 1]).map (·.endAllRecv)) = none := by decide
+-- and nothing is revealed on connection 0 beyond the control stream by traffic on connection 1
+example : ((run (init 2 3 2 (fun f => f + 1)) [.dispatch 1 3, .accept 0]).map (·.endAllRecv)) = none := by decide
+
+open TV.Gen.Shapes in
+/-- the source `Model/ProtoLMC` was transcribed from: `multiConn.OpenStream` places streams round-robin over the connections in the
+order they are opened; the sender opens the control stream, then the data streams; the first `AcceptStream` takes the control
+stream from connection 0 (compare-and-swap on `control`), later ones take what the per-connection accept loops deliver -/
+theorem C03_source_multiconn :
+    multiconn_open_rr = ["int(atomic.AddUint32(&m.nextIdx, 1)-1) % len(m.conns)"] ∧
+    send_open_order = ["controlStream, err := conn.OpenStream(ctx)", "stream, err := conn.OpenStream(ctx)"] ∧
+    multiconn_accept_ifs = ["atomic.CompareAndSwapUint32(&m.control, 0, 1)", "atomic.CompareAndSwapUint32(&m.control, 0, 1) ; err != nil",
+      "atomic.CompareAndSwapUint32(&m.control, 0, 1) ; err != nil", "res.err != nil", "err != nil"] ∧
+    multiconn_accept_control = ["ctx"] ∧ multiconn_loop_accept = ["context.Background()"] ∧ multiconn_loops = ["idx, conn"] := by decide
+
+end TV.ProtoLMC
 
 namespace TV.FileWait
 
